@@ -142,8 +142,10 @@ V: List[Tuple[str, str, str, str, Any, Any, Optional[str]]] = [
     ("C18", "remove skipped on get hit", "breaking", S + "util/cache.py", "            # Move the accessed node to the front (most recently used)\n            self._remove(node)\n            self._add_to_front(node)\n            return node.value", "            # Move the accessed node to the front (most recently used)\n            self._add_to_front(node)\n            return node.value", "S1"),
     ("C18", "evicts the head side", "breaking", S + "util/cache.py", "                lru_node = self.tail.prev", "                lru_node = self.head.next", "S3"),
     ("C18", "insert without capacity test", "breaking", S + "util/cache.py", "            if self.maxsize is not None and len(self.cache) >= self.maxsize:", "            if False:", "S3"),
-    ("C18", "template string dropped from the key", "breaking", S + "template.py", "    cache_key = (template_cls_path, template_string, engine_cls_path, name, origin_key)", "    cache_key = (template_cls_path, engine_cls_path, name, origin_key)", "S4"),
-    ("C18", "name dropped from the key", "breaking", S + "template.py", "    cache_key = (template_cls_path, template_string, engine_cls_path, name, origin_key)", "    cache_key = (template_cls_path, template_string, engine_cls_path, origin_key)", "S4"),
+    ("C18", "template string dropped from the key", "breaking", S + "template.py", "    cache_key = (template_cls, template_string, engine, name, origin_key)", "    cache_key = (template_cls, engine, name, origin_key)", "S4"),
+    ("C18", "origin part of the key guarded by the name", "breaking", S + "template.py", "    origin_key = (origin.name, origin.template_name) if origin else None", "    origin_key = (origin.name, origin.template_name) if name else None", "S4"),
+    ("C18", "engine keyed by its class again", "breaking", S + "template.py", "    cache_key = (template_cls, template_string, engine, name, origin_key)", "    cache_key = (template_cls, template_string, type(engine), name, origin_key)", "S4"),
+    ("C18", "name dropped from the key", "breaking", S + "template.py", "    cache_key = (template_cls, template_string, engine, name, origin_key)", "    cache_key = (template_cls, template_string, engine, origin_key)", "S4"),
     ("C18", "backward link omitted", "breaking", S + "util/cache.py", "        node.next = self.head.next\n        node.prev = self.head\n", "        node.next = self.head.next\n", "S2"),
     ("C18", "comment", "preserving", S + "util/cache.py", "        node.next = self.head.next\n        node.prev = self.head\n", "        node.next = self.head.next  # old first node\n        node.prev = self.head\n", None),
     # ---- C19
